@@ -92,6 +92,77 @@ def _c_snaps(snaps: list[tuple[list[list[int]], list[bool]]]) -> str:
     return "[" + "; ".join(rows) + "]"
 
 
+def model_eval(ctx: Any, fn: str, inputs: list[str], shard: int = 25) -> tuple[bool, list[Any], str]:
+    """Evaluate ``fn input`` in Coq (vm_compute) for every input and parse the printed values.
+
+    Elaborating the implementation's traces as Coq literals costs far more than printing the model's, so the
+    comparison (equality on the exact part, implication on the cleanliness bits) is done on this side."""
+    import ast as _ast
+    import re as _re
+
+    from concurrent.futures import ThreadPoolExecutor
+
+    from vlib.core import JOBS, coqc_text
+
+    texts = []
+    for off in range(0, len(inputs), shard):
+        chunk = inputs[off : off + shard]
+        body = "\n".join(f'Goal True. idtac "@@CASE". exact I. Qed.\nEval vm_compute in ({fn} {a}).' for a in chunk)
+        texts.append("Set Printing Width 1000000.\nSet Printing Depth 1000000.\n" + HDR + body + "\n")
+    # (vlib.core.coqc_many does not drain stdout while polling; the printed traces are larger than a pipe buffer)
+    with ThreadPoolExecutor(max_workers=JOBS) as ex:
+        res = list(ex.map(lambda t: coqc_text(ctx.bdir, t, timeout=600, name="c32eval"), texts))
+    out: list[Any] = []
+    logs = []
+    ok_all = True
+    for (ok, txt), off in zip(res, range(0, len(inputs), shard)):
+        parts = txt.split("@@CASE")[1:]
+        n = min(shard, len(inputs) - off)
+        if not ok or len(parts) != n:
+            ok_all = False
+            logs.append(txt[-1500:])
+            out += [None] * n
+            continue
+        for part in parts:
+            m = _re.search(r"=\s*(.*?)\s*:\s*(?:list|\()", part, flags=_re.S)
+            if m is None:
+                ok_all = False
+                out.append(None)
+                continue
+            val = m.group(1).replace(";", ",").replace("true", "True").replace("false", "False")
+            try:
+                out.append(_ast.literal_eval(" ".join(val.split())))
+            except Exception:  # noqa: BLE001
+                ok_all = False
+                logs.append(part[-500:])
+                out.append(None)
+    return ok_all, out, "\n".join(logs)
+
+
+def _norm(x: Any) -> Any:
+    if isinstance(x, (list, tuple)):
+        return [_norm(y) for y in x]
+    return x
+
+
+def first_diff(model: Any, impl: Any) -> Any:
+    if model is None:
+        return "model did not evaluate"
+    for k, ((me, mc), (ie, ic)) in enumerate(zip(model, impl)):
+        if _norm(me) != _norm(ie) or len(mc) != len(ic) or any(a and not b for a, b in zip(mc, ic)):
+            return {"step": k, "model": [_norm(me), list(mc)], "impl": [_norm(ie), list(ic)]}
+    return {"lengths": [len(model), len(impl)]}
+
+
+def trace_agrees(model: Any, impl: list[tuple[list[list[int]], list[bool]]]) -> bool:
+    if model is None or len(model) != len(impl):
+        return False
+    for (me, mc), (ie, ic) in zip(model, impl):
+        if _norm(me) != _norm(ie) or len(mc) != len(ic) or any(a and not b for a, b in zip(mc, ic)):
+            return False
+    return True
+
+
 # ---- generators ------------------------------------------------------------------------------------
 U, T, C = ("U",), ("T",), ("C",)
 
@@ -302,7 +373,7 @@ def run(ctx: Any) -> None:
     from harness.c32_sched import HarnessError, run_schedule
 
     quick = ctx.tier == "quick"
-    budget_s = 55 if quick else 420
+    budget_s = 60 if quick else 480
     ctx.rule = (
         "case = (max_idle in 0..2, idle_timeout in 1..3, 1-3 borrower scripts from a table covering unary / stream / abandon / "
         "callback raising at every read position, optional reaper, optional closer, schedule); schedules are targeted "
@@ -310,14 +381,26 @@ def run(ctx: Any) -> None:
         "process deaths and stutters; distinct by (max_idle, timeout, threads, schedule); non-trivial = at least one worker was spawned"
     )
     scenarios: list[tuple[str, int, int, list[Any], list[Any]]] = list(targeted())
-    n_random = 150 if quick else 1500
+    n_random = 400 if quick else 6000
     for k in range(n_random):
         nb = ctx.rng.choice([1, 2, 2, 3, 3])
         specs = gen_threads(ctx.rng, nb)
         style = "sequential" if k % 3 == 0 else "random"
         scenarios.append((style, ctx.rng.choice([0, 1, 1, 2, 2]), ctx.rng.choice([1, 2, 3]), specs, gen_schedule(ctx.rng, specs, style)))
 
+    # all interleavings of two borrowers (bounded: every order of their 7 + 7 steps), sampled in the quick tier
+    import itertools
+
+    inter: list[tuple[str, int, int, list[Any], list[Any]]] = []
+    for mi in (0, 1):
+        for pos in itertools.combinations(range(14), 7):
+            sch2 = [("thr", 0 if k in pos else 1) for k in range(14)]
+            inter.append(("interleaving", mi, 3, [("B", 0, True, [], []), ("B", 0, True, [], [])], sch2 + [("thr", 0), ("thr", 1)]))
+    scenarios += ctx.rng.sample(inter, 150) if quick else inter
+    ctx.exhaustive = False
+
     cases: list[tuple[str, str]] = []
+    impl_snaps: list[Any] = []
     meta: list[tuple[str, int, int, list[Any], list[Any]]] = []
     harness_errors: list[str] = []
     t0 = time.time()
@@ -340,7 +423,7 @@ def run(ctx: Any) -> None:
         ctx.count("impl_steps", len(sch))
         ctx.tally("max_idle", mi)
         ctx.tally("borrowers", sum(1 for s in specs if s[0] == "B"))
-        ctx.tally("style", name if name in ("random", "sequential") else "targeted")
+        ctx.tally("style", name if name in ("random", "sequential", "interleaving") else "targeted")
         spawned = bool(r["snaps"]) and bool(r["snaps"][-1][0][2])
         ctx.case([mi, to, specs, sch], nontrivial=spawned)
         for ex, _ in r["snaps"]:
@@ -352,7 +435,8 @@ def run(ctx: Any) -> None:
             ctx.violation(key, what, {**replay, **detail})
         if any(h[2] for h in r["handouts"]):
             ctx.count("reuse_handouts", sum(1 for h in r["handouts"] if h[2]))
-        cases.append((_c_case(mi, to, specs, sch), _c_snaps(r["snaps"])))
+        cases.append((_c_case(mi, to, specs, sch), ""))
+        impl_snaps.append(r["snaps"])
         meta.append((name, mi, to, specs, sch))
     ctx.log(f"{len(cases)} schedules replayed on the real pool")
     ctx.sample({"max_idle": 0, "threads": [["B", 0, True, ["U"], []]], "schedule": "thr0 x9", "expect": "idle_count stays 0"})
@@ -362,15 +446,8 @@ def run(ctx: Any) -> None:
     ctx.obligation("harness:no-harness-error", "environment", not harness_errors, "; ".join(harness_errors[:5]))
 
     # the model follows the source: guards regenerated (gen_cfg); evaluated with vm_compute
-    ok, bad, clog = ctx.coq_mismatches(
-        HDR,
-        "run_case_with gen_cfg",
-        "list_eqb (pair_eqb (list_eqb (list_eqb Nat.eqb)) leb_list)",
-        cases,
-        "case_in",
-        "list (list (list nat) * list bool)",
-        shard=40,
-    )
+    ok, model_out, clog = model_eval(ctx, "run_case_with gen_cfg", [c[0] for c in cases])
+    bad = [i for i, (mo, sn) in enumerate(zip(model_out, impl_snaps)) if not trace_agrees(mo, sn)]
     ctx.count("model_cases", len(cases))
     ctx.log("model evaluated")
     ctx.obligation("correspondence:M_Pool.run_case_with", "correspondence", ok and not bad, clog if not ok else f"{len(bad)} of {len(cases)} schedules disagree")
@@ -380,7 +457,7 @@ def run(ctx: Any) -> None:
         ctx.violation(
             "model-impl-disagree",
             "real pool and model differ on a schedule",
-            {"scenario": name, "max_idle": mi, "idle_timeout": to, "threads": specs, "schedule": sch, "impl": cases[i][1][:3000], "model": shown[-3000:]},
+            {"scenario": name, "max_idle": mi, "idle_timeout": to, "threads": specs, "schedule": sch, "first_difference": first_diff(model_out[i], impl_snaps[i]), "model": shown[-1500:]},
         )
 
     # ---- real subprocess workers: the cleanliness half ------------------------------------------
@@ -391,9 +468,13 @@ def run(ctx: Any) -> None:
     if not quick:
         real_scripts += [([U, U], [3]), ([O(True), T], [2]), ([O(True), T], [3]), ([O(False), T, C], [2, 3]), ([O(True), T, T], list(range(2, 12))), ([O(False), C, O(False)], [3])]
     real_cases: list[tuple[str, str]] = []
-    for ops, ra in real_scripts:
+    real_impl: list[Any] = []
+    from concurrent.futures import ThreadPoolExecutor
+
+    with ThreadPoolExecutor(max_workers=4) as ex:
+        real_results = list(ex.map(lambda sc: run_real(sc[0], sc[1], 2), real_scripts))
+    for (ops, ra), r in zip(real_scripts, real_results):
         mi = 2
-        r = run_real(ops, ra, mi)
         ctx.count("impl_runs")
         ctx.count("real_subprocess_runs")
         ctx.case(["real", ops, ra], nontrivial=True)
@@ -411,19 +492,16 @@ def run(ctx: Any) -> None:
         # model: A to completion, then B; compare (reused?, and clean => B's call works)
         specs = [("B", 0, True, ops, ra), ("B", 0, True, [U], [])]
         sch = [("thr", 0)] * (len(ops) + 9) + [("thr", 1)] * 10
-        hand = "[" + "; ".join(["[0; 0; 0]", f"[1; {0 if r['reused'] else 1}; {1 if r['reused'] else 0}]"]) + "]"
-        real_cases.append((_c_case(mi, 60, specs, sch), f"({hand}, [true; {'true' if b_ok else 'false'}])"))
-    ok2, bad2, clog2 = ctx.coq_mismatches(
-        HDR,
-        "run_seq_with gen_cfg",
-        "pair_eqb (list_eqb (list_eqb Nat.eqb)) leb_list",
-        real_cases,
-        "case_in",
-        "list (list nat) * list bool",
-    )
+        real_cases.append((_c_case(mi, 60, specs, sch), ""))
+        real_impl.append(([[0, 0, 0], [1, 0 if r["reused"] else 1, 1 if r["reused"] else 0]], [True, bool(b_ok)]))
+    ok2, seq_out, clog2 = model_eval(ctx, "run_seq_with gen_cfg", [c[0] for c in real_cases])
+    bad2 = []
+    for i2, (mo, (hand_impl, clean_impl)) in enumerate(zip(seq_out, real_impl)):
+        if mo is None or _norm(mo[0]) != hand_impl or len(mo[1]) != len(clean_impl) or any(a and not b for a, b in zip(mo[1], clean_impl)):
+            bad2.append(i2)
     ctx.obligation("correspondence:M_Pool.run_seq_with(real subprocess)", "correspondence", ok2 and not bad2, clog2 if not ok2 else f"{len(bad2)} of {len(real_cases)} real-subprocess scenarios disagree")
     for i in bad2[:3]:
-        ctx.violation("model-impl-disagree-real-subprocess", "real subprocess scenario and model differ", {"borrower_a": real_scripts[i], "impl": real_cases[i][1], "model": ctx.coq_show(HDR, f"run_seq_with gen_cfg {real_cases[i][0]}")[-1500:]})
+        ctx.violation("model-impl-disagree-real-subprocess", "real subprocess scenario and model differ", {"borrower_a": real_scripts[i], "impl": real_impl[i], "model": ctx.coq_show(HDR, f"run_seq_with gen_cfg {real_cases[i][0]}")[-1500:]})
 
     ctx.assumptions += [
         "code between two scheduling points (pool lock, poll outside the lock, spawn, Event.wait, Thread.join, script operation) is atomic with respect to the other pool users",
